@@ -180,7 +180,8 @@ func readByte(r io.Reader) (int64, byte, error) {
 		return 1, v, err
 	}
 	var v [1]byte
-	n, err := r.Read(v[:])
+	// io.ReadFull: a single Read may return (0, nil), or the byte together with io.EOF
+	n, err := io.ReadFull(r, v[:])
 	return int64(n), v[0], err
 }
 
